@@ -1401,3 +1401,20 @@ theorem established_of_B (sub start : Nat) (a b : Conn) (h : establishedB sub st
     | some sb => rw [hb] at h4; exact ⟨sb, rfl, by simpa using h4⟩
 
 end Nx.L1
+
+namespace Nx.L1
+open Nx Nx.Prudp Nx.Chan Nx.Crypto
+
+/-- position by position: the k-th message the receiving application is handed is the k-th message the sending application's
+    `send` accepted — for every k, whatever happened to the packets of earlier and later messages -/
+theorem good_delivers_kth {sub : Nat} {ci : Cipher} {size start : Nat} {s : Sys} {ch : Chan} (h : Good sub ci size start s ch)
+    (k : Nat) (got : Bytes) (hgot : (s.b.queues[sub]?.getD [])[k]? = some got) : s.accepted[k]? = some got := by
+  obtain ⟨t, ht⟩ := good_safe h
+  rw [← ht]
+  have hk : k < (s.b.queues[sub]?.getD []).length := by
+    rcases Nat.lt_or_ge k (s.b.queues[sub]?.getD []).length with h1 | h1
+    · exact h1
+    · rw [List.getElem?_eq_none h1] at hgot; cases hgot
+  rw [List.getElem?_append_left hk]; exact hgot
+
+end Nx.L1
